@@ -447,3 +447,25 @@ ADDENDA = {
     "C20": "Round 4: constructors refuse (version check) before the base class acquires temporary files; program output is read through "
            "communicate() only; dump applications collect each result-file pattern separately.",
 }
+
+
+# clauses added by round 5 of the seeded changes (second part) and refactoring batch 6
+ADDENDA2 = {
+    "C01": "Round 5: an array assigned to an existing annotation is promoted to the common type (set_annotation compared as a whole "
+           "function); array() declares every category with the width of the longest value.",
+    "C04": "Round 5: the result of a table look-up is tested with `is None` (row 0 is a row); the text container keeps the block it "
+           "parsed on demand (write after read); a defect found through the return summaries is repaired in /repo (6f21618b).",
+    "C06": "Round 5: a refused __delitem__ / pop leaves the container as it was (the refusal precedes the first in-place change); a "
+           "missing key stays a KeyError (the look-up does not stand under a handler that replaces every exception).",
+    "C07": "Round 5: both altloc policies take the blank of the PDB column for 'no alternate location' and agree on the marker set.",
+    "C11": "Round 5: a subclass that re-wraps an indexed alignment takes sequences, trace and score from the one indexing operation; the "
+           "clip operations are part of the tuples as well as of the string form.",
+    "C12": "Round 5: the RNA spelling (T -> U) is applied under isinstance(.., NucleotideSequence) only.",
+    "C13": "Round 5: Sequence.__add__ owns its code array (whole-function comparison); the mirrored defect starts from NONE for every "
+           "location; clipping and strand swap are decided by paths / evaluation, not by statement shape.",
+    "C17": "Round 5: the annotation rules of C01 (promotion, width) are shared: residue and chain boundaries are read off these arrays.",
+    "C18": "Round 5: only None means 'first record' when a record is chosen by name (an empty title is a name); the parsed header is "
+           "stored back.",
+    "C20": "Round 5: the polling join raises TimeoutError only under the fact get_app_state() != FINISHED; optional indexes / numbers "
+           "of every application module are tested with `is None`.",
+}
